@@ -521,6 +521,8 @@ def float_problem(rs, pyrng, nmax):
         Ri = R.conj().T
     else:
         R = rand_c(rs, (n, n), cplx) + 2 * np.eye(n)
+        while np.linalg.cond(R) > 30:  # keep the eigenproblem well conditioned (tolerances assume it)
+            R = 0.5 * rand_c(rs, (n, n), cplx) + 2 * np.eye(n)
         Ri = np.linalg.inv(R)
     nblocks = pyrng.randint(1, 2)
     sizes = [pyrng.randint(1, 2) for _ in range(nblocks)]
